@@ -224,6 +224,36 @@ class ManifestMachine(FormatMachine):
     def add_key(self, op, payload):
         return [len(payload)]
 
+    def op_mf_lookup(self, op):
+        """a reader asks for a tree (one that is filed or one that is not) and treats a KeyError as 'nothing there': looking is
+        not changing - the manifest holds afterwards exactly what the add calls put in"""
+        s = self.slot(op)
+        if s is None or s.obj is None or s.tainted:
+            return "noop"
+        variant, arch = op["variant"], op["arch"]
+        payload = s.model["payload"]
+        known = variant in payload and arch in payload[variant]
+        for how in op.get("how", ["item"]):
+            try:
+                if how == "item":
+                    s.obj[variant][arch]
+                elif how == "table":
+                    getattr(s.obj, self.ATTR)[variant][arch]
+                elif how == "tree" and hasattr(s.obj, "dump_for_tree") and not known:
+                    s.obj.dump_for_tree(io.StringIO(), variant, arch, op.get("basepath", "%s/%s/os" % (variant, arch)))
+            except Exception as e:
+                if isinstance(e, HarnessError):
+                    raise
+        got = copy.deepcopy(getattr(s.obj, self.ATTR))
+        d = first_diff(payload, got)
+        CTX.probe("mf.lookup_of_%s_tree" % ("a_filed" if known else "a_missing"))
+        if d:
+            P = "C12" if self.cfg.get("focus") == "C12" else "C03"
+            if self.watching(P):
+                raise Violation(P, "%s.lookup_changes_nothing" % P, "lookup-changed-manifest/%s" % self.FORMAT, {"diff": d, "known": known})
+            s.model["payload"] = got
+        return "ok"
+
     def op_mf_del_variant(self, op):
         """del manifest[variant] - the public way of taking a variant out again"""
         s = self.slot(op)
